@@ -355,7 +355,7 @@ def cases(tier, seed):
     # pairs whose dimension vectors are proportional with a ratio other than 1 over several base
     # dimensions (the memoised dimensionalities list the base dimensions in different orders)
     red += [[["ohm", 1], ["siemens", 1], ["meter", 1]], [["ohm", 2], ["siemens", 1]], [["farad", -1], ["conventional_farad_90", 1], ["second", 1]], [["henry", 1], ["siemens", 1], ["hertz", 1]],
-            [["tesla", 1], ["pascal", 1]], [["volt", 1], ["ampere", 1], ["watt", -1], ["gram", 1]], [["newton", 1], ["dyne", -1], ["second", 1]]]  # fmt: skip
+            [["tesla", 1], ["pascal", 1]], [["knot", 1], ["gray", 1]], [["sievert", 1], ["mile_per_hour", -1]], [["gray", 2], ["knot", -1], ["second", 1]], [["volt", 1], ["ampere", 1], ["watt", -1], ["gram", 1]], [["newton", 1], ["dyne", -1], ["second", 1]]]  # fmt: skip
     red += [draw(rnd.choice([2, 3])) for _ in range(30 if big else 8)]
     for ul in red:
         out.append(Case("H15.b", f"reduced:{_sig(ul)}", M, "h_reduced", {"units": ul}, validate=1))
